@@ -1,7 +1,7 @@
 (* C17 — block parameters get declared types and block locals stay local.
    The block scope is modelled as snapshot / bind parameters / run the body / restore (Model/Blocks.v); the body is
    arbitrary (assignments and nested blocks), the theorems hold whatever it does.  Proofs in BlocksP.v. *)
-From RT Require Import Model.Blocks Proofs.BlocksP.
+From RT Require Import Model.Blocks Proofs.BlocksP Model.BlockParams Proofs.BlockParamsP.
 
 (* a variable first assigned inside the block — at any depth — is not bound after it *)
 Theorem C17_locals_stay_local : forall A nil_t untyped_t is_unknown ps ds body e x,
@@ -32,6 +32,29 @@ Print Assumptions C17_union_receiver.
 Example C17_union_example :
   union_declared string "NilClass" unify_printed 2 [["untyped"; "Float"]; ["Integer"]] = ["Union<untyped Integer>"; "Union<Float NilClass>"].
 Proof. vm_compute. reflexivity. Qed.
+
+(* "the type declared by the method's block_parameters, resolved against the receiver": on the model of
+   appendParameterBeforeTypeCalculate (tied to the code through a hook, receiver compared afterwards).  Unify is the union of
+   the receiver's element types; Flatten with at most one block variable is the same; with two or more block variables a
+   receiver holding tuples [x1, ..., xk] gives variable j the type xj *)
+Theorem C17_resolve_unify : forall count args recv p, t_tag p = UNIFY -> resolve_params count args recv [p] = [UnifyVariants recv].
+Proof. exact resolve_unify. Qed.
+Print Assumptions C17_resolve_unify.
+Theorem C17_resolve_flatten_one : forall count args recv p, t_tag p = FLATTEN -> count <= 1 ->
+  resolve_params count args recv [p] = [UnifyVariants recv].
+Proof. exact resolve_flatten_one. Qed.
+Print Assumptions C17_resolve_flatten_one.
+Theorem C17_resolve_flatten_tuple : forall count args xs p, t_tag p = FLATTEN -> 2 <= count -> xs <> [] -> forallb plain xs = true ->
+  resolve_params count args (MakeArray [MakeArray xs]) [p] = xs.
+Proof. exact resolve_flatten_tuple. Qed.
+Print Assumptions C17_resolve_flatten_tuple.
+
+Example C17_resolve_example :
+  let F := NewT "Flatten" FLATTEN (VStr "flatten") in
+  map TypeToString (resolve_params 2 [] (MakeArray [MakeArray [MakeIntLit; MakeString "a"]]) [F]) = ["Integer"; "String"] /\
+  map TypeToString (resolve_params 2 [] (MakeArray [MakeArray [MakeIntLit; MakeString "a"]; MakeFloatLit]) [F]) = ["Union<Integer Float>"; "Union<String NilClass>"] /\
+  forallb plain [MakeIntLit; MakeString "a"] = true.
+Proof. vm_compute. repeat split; reflexivity. Qed.
 
 Example C17_example :
   let e := [("x", "String")] in
